@@ -271,6 +271,11 @@ class DNSOutgoing:
         if name.endswith('.'):
             name = name[:-1]
 
+        if not name:
+            # the root name has no label, only the octet that ends every name
+            self._write_byte(0)
+            return
+
         index = self.names.get(name, 0)
         if index:
             self._write_link_to_name(index)
